@@ -166,7 +166,7 @@ def units(w):
     def lemma(name, build, prefer="z3"):
         def body(it, c):
             for nm, f in build():
-                it.check("lemma:" + nm, f)
+                it.check("lemma:" + nm, f, assume=False)
             return Outcome("return", None)
         return Unit(None, lambda it: ([], {}, {}), None, name="lemma::" + name, body=body, canary=False, config={"prefer": prefer})
 
